@@ -1,9 +1,11 @@
 //! C11 — RFC 2822 output round-trips and obsolete forms are read as specified.
 //!
-//! Correspondence (implementation vs the Lean model, ops `r2.write`, `r2.rt`, `r2.parse`):
+//! Correspondence (implementation vs the Lean model, ops `r2.write`, `r2.rt`, `r2.parse`, `r2.item`):
 //!   * renderings: `DateTime<FixedOffset>::to_rfc2822` on boundary-directed (date, time, offset) values
 //!     (wall-clock years around 0 and 9999, leap seconds, every whole-minute offset class, some
-//!     offsets with seconds), text compared and re-parsed;
+//!     offsets with seconds), text compared and re-parsed; the same value through the item form
+//!     `format_with_items([Fixed::RFC2822])` (text / `fmt::Error`, op `r2.item`, and a direct oracle
+//!     against the independently formatted text);
 //!   * grammar-generated strings: every optional part of the adapted RFC 2822 grammar toggled
 //!     (day-name, one/two digit day, 2/3/4/5+ digit years, seconds, numeric / named / military zones,
 //!     runs of the 25 Unicode white-space code points, nested and escaped comments to depth 4),
@@ -16,7 +18,9 @@
 //! with an independently formatted `Www, D Mon YYYY HH:MM:SS +HHMM`; the implementation's own round
 //! trip returns the value truncated to whole seconds with a leap second kept; exhaustive tables for
 //! the year rule (all 2-, 3- and 4-digit years), the zone names in every letter case, every single
-//! letter, and all 7 day-names against sampled dates.
+//! letter, and all 7 day-names against sampled dates; every BMP character in the mandatory-space
+//! positions is accepted iff it is one of the 25 `White_Space` code points (and `char::is_whitespace`
+//! is that table on all code points); comments nested to depth 300, balanced / unbalanced / escaped.
 use super::c01::{day_num, gen_date, month_len, yof, MAX_YEAR, MIN_YEAR};
 use super::c13::{dump_parsed, err_kind};
 use crate::ctx::*;
@@ -470,6 +474,36 @@ pub fn run(c: &mut Ctx) {
                 (Err(()), Ok(Err(()))) | (Err(()), Err(())) => {}
                 _ => c.fail("the RFC 2822 item renders differently from to_rfc2822", &format!("{args}: to_rfc2822 {:?} item {:?}", text, via)),
             }
+            // ... and against the MODEL of `format_with_items([RFC2822])` (op `r2.item`), not only crate vs crate
+            c.op(
+                &format!("r2.item {}", args),
+                &match &via {
+                    Ok(Ok(s)) => hex(s.as_bytes()),
+                    Ok(Err(())) => "err".into(),
+                    Err(()) => "panic".into(),
+                },
+            );
+            // ... and against the property itself: the documented text of the wall clock (independent
+            // formatter), `fmt::Error` — never a panic — when the wall-clock year is outside 0-9999
+            let doc = doc_text(
+                day_num(d.year() as i64, d.month() as i64, d.day() as i64),
+                t.num_seconds_from_midnight() as i64,
+                t.nanosecond() >= 1_000_000_000,
+                off as i64,
+            );
+            match (&via, &doc) {
+                (Err(()), _) => c.fail("item form: the RFC 2822 item panicked", &format!("{:?} off {}", utc, off)),
+                (Ok(Ok(s)), None) => c.fail("item form: text for a wall-clock year outside 0-9999", &format!("{:?} off {} -> {:?}", utc, off, s)),
+                (Ok(Err(())), Some(w)) => c.fail("item form: fmt::Error for a wall-clock year in 0-9999", &format!("{:?} off {} (want {:?})", utc, off, w)),
+                (Ok(Ok(s)), Some(w)) if off % 60 == 0 && s != w => {
+                    c.fail("item form: text differs from `Www, D Mon YYYY HH:MM:SS +HHMM` of the wall clock", &format!("{:?} off {}: {:?} vs {:?}", utc, off, s, w))
+                }
+                (Ok(Ok(s)), Some(w)) if off % 60 != 0 && s[..s.len().saturating_sub(5)] != w[..w.len().saturating_sub(5)] => {
+                    c.fail("item form: text before the zone differs from `Www, D Mon YYYY HH:MM:SS ` of the wall clock", &format!("{:?} off {}: {:?} vs {:?}", utc, off, s, w))
+                }
+                _ => {}
+            }
+            c.count(if doc.is_some() { "render:item-form year0-9999" } else { "render:item-form year-outside (fmt::Error)" });
         }
         let secs = t.num_seconds_from_midnight() as i64;
         let leap = t.nanosecond() >= 1_000_000_000;
@@ -694,6 +728,57 @@ pub fn run(c: &mut Ctx) {
             }
             c.op(&format!("r2.parse {}", hex(s.as_bytes())), &r);
             c.count(if k == truth { "dayname-table:right" } else { "dayname-table:wrong" });
+        }
+    }
+    // ---- 6. white space: exactly the 25 `White_Space` code points, everywhere the standard form has a space ----
+    // (a) the std predicate the scanners call is that table (trusted-base item checked on this tool-chain)
+    for cp in 0..=0x10FFFFu32 {
+        if let Some(ch) = char::from_u32(cp) {
+            if ch.is_whitespace() != WS.contains(&ch) {
+                c.fail("char::is_whitespace differs from the 25 White_Space code points", &format!("U+{:04X}", cp));
+            }
+        }
+    }
+    c.count("whitespace:std-predicate-checked");
+    // (b) every BMP character (and some astral ones) in the three mandatory-space positions: accepted iff White_Space
+    let astral = [0x10000u32, 0x1F600, 0xE0020, 0x10FFFF];
+    for cp in (0..=0xFFFFu32).chain(astral.iter().copied()) {
+        let ch = match char::from_u32(cp) {
+            Some(ch) => ch,
+            None => continue,
+        };
+        let s = format!("1{ch}Jan{ch}2000{ch}12:00{ch}+0000");
+        let r = show_parse(&s);
+        let is_ws = WS.contains(&ch);
+        if r.starts_with("ok") != is_ws || r == "panic" {
+            c.fail(
+                if is_ws { "a White_Space character was not accepted as folding white space" } else { "a character that is no White_Space was accepted where a space belongs" },
+                &format!("U+{:04X}: {:?} -> {}", cp, s, r),
+            );
+        }
+        let near = WS.iter().any(|w| (*w as u32).abs_diff(cp) <= 1);
+        if is_ws || near || cp % 251 == 0 || cp < 0x100 {
+            c.op(&format!("r2.parse {}", hex(s.as_bytes())), &r);
+            c.count(if is_ws { "whitespace:table ws" } else { "whitespace:table other" });
+        }
+    }
+    // ---- 7. comments: nesting far beyond the generator's depth, balanced or not -------------------------------
+    for depth in [1usize, 2, 5, 17, 64, 300] {
+        for (open, close) in [(depth, depth), (depth, depth - 1), (depth, depth + 1)] {
+            let s = format!("1 Jan 2000 12:00 +0000 {}{}", "(".repeat(open), ")".repeat(close));
+            let r = show_parse(&s);
+            if r.starts_with("ok") != (open == close) || r == "panic" {
+                c.fail("nested comment: balanced parentheses must be accepted, unbalanced ones rejected", &format!("{} open {} close -> {}", open, close, r));
+            }
+            c.op(&format!("r2.parse {}", hex(s.as_bytes())), &r);
+            // escapes: `\(` / `\)` inside do not count
+            let e = format!("1 Jan 2000 12:00 +0000 {}\\(\\){}", "(".repeat(open), ")".repeat(close));
+            let re = show_parse(&e);
+            if re.starts_with("ok") != (open == close) {
+                c.fail("nested comment with escaped parentheses", &format!("{:?} -> {}", e, re));
+            }
+            c.op(&format!("r2.parse {}", hex(e.as_bytes())), &re);
+            c.count("comments:deep-nesting");
         }
     }
     let _ = civil;
